@@ -142,6 +142,48 @@ def frames_uninterrupted(k, strand):
     return fn
 
 
+def frames_history(strand):
+    """construct_frames_from_location is a pure function of (location, start frame): a result stays what it was when the function is called again for
+    another location / offset, and editing a returned list (callers model frameshifts that way) does not change later results (real caches active)"""
+    CFG = [((a, b, c), f) for a in (4, 5, 6) for b in (3, 4) for c in (5, 9, 10) for f in (0, 1, 2)]
+
+    def model(lens, f):
+        order = list(range(3)) if strand is PLUS else [2, 1, 0]
+        out = [None] * 3
+        out[order[0]] = f
+        run = lens[order[0]] - f
+        for i in order[1:]:
+            out[i] = run % 3
+            run += lens[i]
+        return out
+
+    def build(lens):
+        bl, cur = [], 2
+        for n in lens:
+            bl.append((cur, cur + n))
+            cur += n + 3
+        return make_location(bl, strand)
+
+    def fn(i, j, edit):
+        i, j, edit = concretize(i, j, edit)
+        with untraced():
+            (l1, f1), (l2, f2) = CFG[i], CFG[j]
+            r1 = CDSInterval.construct_frames_from_location(build(l1), CDSFrame(f1))
+            snap = [x.value for x in r1]
+            if snap != model(l1, f1):
+                return False
+            r2 = CDSInterval.construct_frames_from_location(build(l2), CDSFrame(f2))
+            if [x.value for x in r2] != model(l2, f2) or [x.value for x in r1] != snap:
+                return False
+            if edit:
+                r2[edit % 3] = r2[edit % 3].shift(1)  # a caller edits the list it was given
+            r3 = CDSInterval.construct_frames_from_location(build(l2), CDSFrame(f2))
+            r4 = CDSInterval.construct_frames_from_location(build(l1), CDSFrame(f1))
+            return [x.value for x in r3] == model(l2, f2) and [x.value for x in r4] == snap and [x.value for x in r1] == snap
+
+    return fn, len(CFG)
+
+
 GENOME = "TTGTGATGCAACACATCAGTAGGGTTGATAATTTCTGCAT"  # 40 nt: the first codons reachable from the small start offsets are TTG TGT GTG TGA GAT ATG (plus strand) and, read from
 # the minus strand around positions 8..19, CAA/CAC/CAT/CAG = reverse complements of TTG GTG ATG CTG (alternative starts of tables 1 / 11) and stops
 
@@ -299,6 +341,14 @@ def obligations(tier):
             out.append(Obl("frames_from_location_k%d_%s" % (k, sn), frames_uninterrupted(k, strand), p, pre, budget=200, cost=3 * k,
                            desc="construct_frames_from_location(loc, f) yields the frames of ONE uninterrupted reading frame (no resynchronisation)",
                            bounds="%d blocks, SYMBOLIC lengths >= 3, gaps >= 1, start frame 0..2" % k, examples=[ex]))
+        fh, ncfg = frames_history(strand)
+        out.append(Obl("frames_history_%s" % sn, fh, dict(i=int, j=int, edit=int),
+                       (lambda ncfg: (lambda i, j, edit: 0 <= i and i < ncfg and 0 <= j and j < ncfg and 0 <= edit and edit <= 3 and (not quick or ((i + 2 * j) % 3 == 0 and edit % 2 == 0))))(ncfg),
+                       budget=600, cost=40,
+                       desc="construct_frames_from_location called for one 3-block location/offset, then another, then both again (optionally after the caller edited a "
+                            "returned list): every result equals the one-frame model and earlier results are not changed retroactively",
+                       bounds="%d (lengths, offset) configurations, every ordered pair%s x 4 edit choices (realised, real memoisation)" % (ncfg, " with (i+2j) % 3 == 0, 2 edit choices" if quick else ""),
+                       examples=[dict(i=1, j=1, edit=0), dict(i=4, j=10, edit=2)]))
         # sequence legs: small realised offsets on a concrete 40-nt genome
         sshapes = [(6,), (7,), (3, 3), (4, 5), (2, 4), (5, 1)] if quick else \
             [(n,) for n in range(3, 10)] + list(itertools.product((1, 2, 3, 4, 5), repeat=2)) + [(3, 3, 3), (4, 2, 3), (2, 2, 2), (1, 4, 4)]
